@@ -7,7 +7,7 @@ Reg(n) == 1000 + n
 AsSet(s) == {s[n] : n \in 1..Len(s)}
 Why(r) == IF ~EnergySum(r) THEN "EnergySum" ELSE IF ~HeatOK(r) THEN "HeatOK" ELSE IF ~GapOK(r) THEN "GapOK"
           ELSE IF ~Ascending(r) THEN "Ascending" ELSE IF ~ChargeSum(r) THEN "ChargeSum" ELSE IF ~ChargeDef(r) THEN "ChargeDef"
-          ELSE IF ~ElectronCount(r) THEN "ElectronCount" ELSE IF ~TransOK(r) THEN "TransOK" ELSE IF ~Aufbau(r) THEN "Aufbau" ELSE IF ~EigOK(r) THEN "EigOK" ELSE IF ~RotOK(r) THEN "RotOK" ELSE IF ~DipoleFormula(r) THEN "DipoleFormula"
+          ELSE IF ~ElectronCount(r) THEN "ElectronCount" ELSE IF ~TransOK(r) THEN "TransOK" ELSE IF ~Aufbau(r) THEN "Aufbau" ELSE IF ~EigOK(r) THEN "EigOK" ELSE IF ~RotOK(r) THEN "RotOK" ELSE IF ~DipoleFormula(r) THEN "DipoleFormula" ELSE IF ~AllForcesOK(r) THEN "AllForcesOK"
           ELSE IF ~(Published(r.path) \subseteq AsSet(r.fresh)) THEN "Current" ELSE "-"
 TInit == t \in 1..Len(Recs) /\ gen = [a \in Attrs |-> 0] /\ calls = 0 /\ TLCSet(Reg(t), Why(Recs[t]))
 TNext == UNCHANGED <<vars, t>>
